@@ -165,7 +165,8 @@ def eol_norm(units):
     return out
 
 
-RESERVED = re.compile(r"(?i)^(data_.*|save_.*|loop_|stop_|global_)$", re.S)
+# ASCII case-insensitivity only (Python's re.I would also match U+017F for `s`)
+RESERVED = re.compile(r"^([dD][aA][tT][aA]_.*|[sS][aA][vV][eE]_.*|[lL][oO][oO][pP]_|[sS][tT][oO][pP]_|[gG][lL][oO][bB][aA][lL]_)$", re.S)
 
 
 def ws_delimitable(s):
